@@ -60,6 +60,7 @@ pub fn dispatch(req: &Value) -> Value {
         "codec" => op_codec(req),
         "codec_parse" => op_codec_parse(req),
         "copyright_lookup" => op_copyright_lookup(req),
+        "accessor" => crate::gen_accessors::op_accessor(req),
         "pgp" => match debian_control::pgp::strip_pgp_signature(&s(req, "s")) {
             Ok((p, sig)) => json!({"ok": true, "payload": p, "sig": sig}),
             Err(e) => json!({"ok": false, "err": format!("{:?}", e)}),
@@ -243,6 +244,7 @@ fn op_ext(req: &Value) -> Value {
         "url_parse" => match url::Url::parse(&t) { Ok(u) => json!({"ok": true, "text": u.to_string()}), Err(e) => json!({"ok": false, "err": e.to_string()}) },
         "date_parse" => match chrono::NaiveDate::parse_from_str(&t, &s(req, "fmt")) { Ok(d) => json!({"ok": true, "text": d.to_string()}), Err(e) => json!({"ok": false, "err": e.to_string()}) },
         "date_format" => match chrono::NaiveDate::parse_from_str(&t, "%Y-%m-%d") { Ok(d) => json!({"ok": true, "text": d.format(&s(req, "fmt")).to_string()}), Err(e) => json!({"ok": false, "err": e.to_string()}) },
+        "dt_parse" => match chrono::DateTime::parse_from_rfc2822(&t) { Ok(d) => json!({"ok": true, "text": d.to_rfc2822()}), Err(e) => json!({"ok": false, "err": e.to_string()}) },
         "version_cmp" => {
             let a: Result<debversion::Version, _> = t.parse(); let b: Result<debversion::Version, _> = s(req, "t").parse();
             match (a, b) { (Ok(a), Ok(b)) => json!({"ok": true, "cmp": match a.cmp(&b) { std::cmp::Ordering::Less => -1, std::cmp::Ordering::Equal => 0, std::cmp::Ordering::Greater => 1 }}), _ => json!({"ok": false}) }
